@@ -131,7 +131,7 @@ def snap_design(dm):
 
 def obs_result(out, exc, warns):
     if exc is not None:
-        return {"exc": type(exc).__name__, "msg": str(exc)[:200]}
+        return {"exc": type(exc).__name__}  # the message lists levels in set-iteration order: not compared
     o = {"m": dig(out.design_matrix), "shape": list(np.asarray(out.design_matrix).shape),
          "slices": {k: [v.start, v.stop] for k, v in out.slices.items()}, "warn": len(warns)}
     if hasattr(out, "factors_with_new_levels"):
